@@ -202,7 +202,9 @@ pub fn grammar(full: bool) -> Vec<String> {
         g.insert(format!("CAP LS {}", x));
         g.insert(format!("CONNECT a.b {}", x));
     }
-    for l in ["MODE #pre", "MODE #pre +b", "MODE #pre -b", "MODE #pre +e", "MODE #pre +I", "MODE #pre b", "MODE #pre -b evil*!*@*", "MODE #pre +b evil*!*@*", "MODE #pre -e evil1!*@*", "MODE #pre -o me", "MODE #pre -v bob", "MODE #pre +o ghost", "TOPIC #pre", "TOPIC #pre :", "NAMES #pre", "LIST #pre", "WHO #pre", "PART #pre", "JOIN #pre", "KICK #pre bob", "KICK #pre me", "INVITE zed #pre", "PRIVMSG @#pre :x", "PRIVMSG +#pre :x", "PRIVMSG #pre :x", "PART #solo", "KICK #solo me", "PART #solo,#pre", "JOIN #solo", "NAMES #solo"] {
+    for l in ["MODE #pre", "MODE #pre +b", "MODE #pre -b", "MODE #pre +e", "MODE #pre +I", "MODE #pre b", "MODE #pre -b evil*!*@*", "MODE #pre +b evil*!*@*", "MODE #pre -e evil1!*@*", "MODE #pre -o me", "MODE #pre -v bob", "MODE #pre +o ghost", "TOPIC #pre", "TOPIC #pre :", "NAMES #pre", "LIST #pre", "WHO #pre", "PART #pre", "JOIN #pre", "KICK #pre bob", "KICK #pre me", "INVITE zed #pre", "PRIVMSG @#pre :x", "PRIVMSG +#pre :x", "PRIVMSG #pre :x", "PART #solo", "KICK #solo me", "PART #solo,#pre", "JOIN #solo", "NAMES #solo",
+        // arguments that only the trailing form can carry (blanks inside a limit, key or mask)
+        "MODE #c +l :25 ", "MODE #c +l : 7", "MODE #c +k :k k", "MODE #c +b :m m!*@*", "JOIN #c :k k", "MODE #c +o :bob ", "WHOWAS bob : 1", "LIST : #c", "KICK #c :bob "] {
         g.insert(l.to_string());
     }
     for l in ["CAP LS 302", "CAP LIST", "CAP REQ :multi-prefix", "CAP REQ :foo", "CAP REQ", "CAP END", "CAP", "OPER op oppw", "OPER op bad", ":src PRIVMSG bob :x", ":a!b PING x", ":a@b!c PING x", ": PING x", ":", " ", "", "PING", "   PING   x   ", "STATS u", "STATS m", "STATS x", "STATS uu", "HELP", "HELP MAIN", "HELP NOPE", "PASS x", "PASS :", "USER", "USER a b c", "USER a.b 0 * :r", "USER #a 0 * :r", "NICK #a", "NICK a:b", "LINKS a.b *.c", "LINKS a b", "SQUIT other.net :x", "TIME a.b", "TIME ab", "MOTD a.b", "VERSION *", "ADMIN x"] {
